@@ -118,4 +118,5 @@ typedef struct {
     uint64_t route_context; /* context when the last BadRoute was triggered */
     avl_tree *bad_routes;   /* stack idents for routes known to fail */
     int skip_style_tags;    /* temp fix for the sometimes broken tag parser */
+    Py_ssize_t unterminated_comment; /* no end of comment at or after this, or -1 */
 } Tokenizer;
